@@ -239,7 +239,19 @@ def run(ck: Check, prog: Program) -> None:
                         problems.append(f'call id `{norm(i) if i is not None else "<missing>"}` is not drawn from the configured id generator')
             # positional xor named
             asserts = [x for x in walk_own(f.node) if isinstance(x, ast.Assert)]
-            if not any('not (' in norm(x.test) and 'and' in norm(x.test) for x in asserts):
+            va, kw = f.node.args.vararg, f.node.args.kwarg
+
+            def _exclusive(t: ast.expr) -> bool:
+                """`not (args and kwargs)` or its De Morgan form `not args or not kwargs` (either order)"""
+                if isinstance(t, ast.UnaryOp) and isinstance(t.op, ast.Not) and isinstance(t.operand, ast.BoolOp) and \
+                        isinstance(t.operand.op, ast.And):
+                    return va is not None and kw is not None and sorted(dotted(v) or '?' for v in t.operand.values) == sorted([va.arg, kw.arg])
+                if isinstance(t, ast.BoolOp) and isinstance(t.op, ast.Or) and len(t.values) == 2 and \
+                        all(isinstance(v, ast.UnaryOp) and isinstance(v.op, ast.Not) for v in t.values):
+                    return va is not None and kw is not None and \
+                        sorted(dotted(v.operand) or '?' for v in t.values) == sorted([va.arg, kw.arg])     # type: ignore[attr-defined]
+                return False
+            if not any(_exclusive(x.test) for x in asserts):
                 problems.append('positional and named arguments are not mutually exclusive')
             # sends it
             sends = [x for x in walk_own(f.node) if isinstance(x, ast.Call) and dotted(x.func) == 'self.send']
